@@ -56,9 +56,9 @@ def project_stub(text):
     try:
         tree = ast.parse(text)
     except SyntaxError as e:
-        return {"valid": False, "consts": [], "classes": [], "aliases": [], "other": [], "scopes": [], "err": f"line {e.lineno}: {(e.text or '').strip()[:80]}"}
+        return {"valid": False, "consts": [], "classes": [], "aliases": [], "typealiases": [], "other": [], "scopes": [], "err": f"line {e.lineno}: {(e.text or '').strip()[:80]}"}
     top = [n for n in tree.body if isinstance(n, ast.ClassDef)]
-    out = {"valid": True, "consts": [], "classes": [], "aliases": [], "other": [], "scopes": []}
+    out = {"valid": True, "consts": [], "classes": [], "aliases": [], "typealiases": [], "other": [], "scopes": []}
     if len(top) != 1:
         out["other"].append("not exactly one top-level class")
         return out
@@ -69,7 +69,11 @@ def project_stub(text):
                 v = ann.slice.value if isinstance(ann.slice, ast.Constant) else None
                 out["consts"].append([n.target.id, v if isinstance(v, int) and not isinstance(v, bool) else repr(v)])
             elif getattr(ann, "id", "") == "TypeAlias" and n.value is not None:
-                out["aliases"].append([n.target.id, hint_tree(n.value)["id"]])
+                h = hint_tree(n.value)
+                if h["k"] == "sub" or h["id"] in ("CharArray", "WcharArray"):
+                    out["typealiases"].append([n.target.id, h])       # a name of an array / pointer type
+                else:
+                    out["aliases"].append([n.target.id, h["id"]])
             else:
                 out["other"].append(f"annotation {n.target.id}")
         elif isinstance(n, ast.ClassDef):
@@ -97,17 +101,13 @@ def project_stub(text):
 def stub_record(rid, rnd, special=None):
     from dissect.cstruct.tools.stubgen import generate_cstruct_stub
 
-    while True:
-        decls, consts, mode = make_decls(rnd, typedecl=False)
-        if not any(d["kind"] in ("aliasarr", "aliasptr") for d in decls) or special == "typedef-array-or-pointer":
-            break
-    if special != "typedef-array-or-pointer":
-        decls = [d for d in decls if d["kind"] not in ("aliasarr", "aliasptr")]
-    elif not any(d["kind"] in ("aliasarr", "aliasptr") for d in decls):
+    decls, consts, mode = make_decls(rnd, typedecl=False)
+    if special == "typedef-array-or-pointer" and not any(d["kind"] in ("aliasarr", "aliasptr") for d in decls):
         decls.append({"kind": "aliasarr", "names": ["arr9"], "target": "uint16", "n": 4, "text": "typedef uint16 arr9[4];", "deps": set(), "key": "arr9"})
     text = "\n".join(d["text"] for d in decls)
     if special == "anonymous-enum":
-        text += "\nenum : uint8 { AA, BB };"
+        text += "\nenum : uint8 { AA, BB = 4 };"        # the members of an enumeration without a name are constants
+        consts = dict(consts, AA=0, BB=4)
     if special == "keyword-field":
         text += "\nstruct kw { uint8 in; uint8 ok; };"
     rec = {"id": rid, "decls": spec_decls(decls, range(len(decls))), "consts": [[k, v] for k, v in sorted(consts.items())], "text": text[:1500],
@@ -119,7 +119,7 @@ def stub_record(rid, rnd, special=None):
         rec["obs"] = project_stub(stub)
         rec["stub"] = stub[:3000]
     except Exception as e:  # noqa: BLE001
-        rec["obs"] = {"valid": False, "consts": [], "classes": [], "aliases": [], "other": [], "scopes": [], "err": f"{type(e).__name__}: {e}"[:200]}
+        rec["obs"] = {"valid": False, "consts": [], "classes": [], "aliases": [], "typealiases": [], "other": [], "scopes": [], "err": f"{type(e).__name__}: {e}"[:200]}
     return rec
 
 
@@ -132,9 +132,9 @@ class StubCheck:
         rep.rule = ("random declaration lists (structs/unions with nested, anonymous, bit-field, array, pointer members; enums, flags; "
                     "`typedef struct {..} A, B;`; typedef chains over built-in synonyms and user types; integer #defines) are loaded, "
                     "generate_cstruct_stub is run, the text is parsed with ast and projected to (valid, constants, classes with bases, "
-                    "fields and hint trees, enum members, aliases, anything else); Trace_Stub compares with StubDecls; the three known "
-                    "shapes that produce invalid Python (typedef of array/pointer, anonymous enum, keyword field name) are run as "
-                    "tagged scenarios; non-trivial = distinct declaration list")
+                    "fields and hint trees, enum members, aliases, anything else); Trace_Stub compares with StubDecls; typedefs of arrays / pointers and anonymous "
+                    "enums (once invalid Python, finding F62) are part of every list and also run as tagged scenarios, the keyword field "
+                    "name (finding F15) as a tagged scenario; non-trivial = distinct declaration list")
         # E1 for this property is the name-table model shared with C13 (aliases in the stub follow Resolve)
         run_mc(rep, "MC_TypeTable")
         recs = []
@@ -152,7 +152,7 @@ class StubCheck:
             rep.sample({"text": r["text"][:300], "valid": r["obs"]["valid"], "classes": [c["name"] for c in r["obs"]["classes"]]}, limit=3)
             if not v:
                 continue
-            if r["special"] and (v == ["invalid-python"] or set(v) <= {"classes", "consts", "extra-declarations", "aliases", "unresolvable-hint"}):
+            if r["special"] == "keyword-field" and (v == ["invalid-python"] or set(v) <= {"classes", "consts", "extra-declarations", "aliases", "unresolvable-hint"}):
                 rep.known_hit("F15", f"{r['special']}: {r['obs'].get('err', '')}")
                 continue
             rep.violation(f"stub of {r['text'][:400]!r}: clauses {v}; {r['obs'].get('err', '')} classes={str(r['obs']['classes'])[:500]} aliases={r['obs']['aliases']} other={r['obs']['other']}",
